@@ -562,6 +562,16 @@ func (e *Exec) val(fr *Frame, s *State, v ssa.Value) Value {
 	return r
 }
 
+// ext64 widens an index/length operand to 64 bits according to the signedness of its Go type
+// (a uint8 index of 182 is 182, not -74).
+func (e *Exec) ext64(fr *Frame, s *State, v ssa.Value) *Term {
+	t := term(e.val(fr, s, v))
+	if signed(v.Type()) {
+		return SExt(t, 64)
+	}
+	return ZExt(t, 64)
+}
+
 func term(v Value) *Term {
 	t, ok := v.(*Term)
 	if !ok {
@@ -1157,9 +1167,8 @@ func (e *Exec) stepMulti(s *State, fr *Frame, instr ssa.Instruction) ([]Outcome,
 	case *ssa.MapUpdate:
 		return e.mapUpdate(s, fr, in), true
 	case *ssa.MakeSlice:
-		n := term(e.val(fr, s, in.Len))
-		c := term(e.val(fr, s, in.Cap))
-		n, c = SExt(n, 64), SExt(c, 64)
+		n := e.ext64(fr, s, in.Len)
+		c := e.ext64(fr, s, in.Cap)
 		return e.makeSlice(s, fr, in, in.Type().Underlying().(*types.Slice).Elem(), n, c), true
 	case *ssa.Convert:
 		xv := e.val(fr, s, in.X)
@@ -1237,7 +1246,7 @@ func (e *Exec) lookup(s *State, fr *Frame, in *ssa.Lookup) []Outcome {
 	if !isMap {
 		// string index
 		str := x.(StrV)
-		idx := SExt(term(k), 64)
+		idx := e.ext64(fr, s, in.Index)
 		ok := Cmp("ult", idx, strLen(str))
 		e.panicState(s, fr, in, Not(ok), "index out of range")
 		if ok.isFalse() {
@@ -1518,7 +1527,7 @@ func (e *Exec) step(s *State, fr *Frame, instr ssa.Instruction) bool {
 		fr.regs[in] = e.val(fr, s, in.X).(StructV).fields[in.Field]
 	case *ssa.Index:
 		x := e.val(fr, s, in.X)
-		idx := SExt(term(e.val(fr, s, in.Index)), 64)
+		idx := e.ext64(fr, s, in.Index)
 		switch a := x.(type) {
 		case ArrV:
 			ok := Cmp("ult", idx, C(64, uint64(len(a.cells))))
@@ -1541,7 +1550,7 @@ func (e *Exec) step(s *State, fr *Frame, instr ssa.Instruction) bool {
 		}
 	case *ssa.IndexAddr:
 		x := e.val(fr, s, in.X)
-		idx := SExt(term(e.val(fr, s, in.Index)), 64)
+		idx := e.ext64(fr, s, in.Index)
 		switch b := x.(type) {
 		case Ptr:
 			n := len(e.getPath(s.get(b.obj), b.path).(ArrV).cells)
@@ -1599,13 +1608,13 @@ func (e *Exec) step(s *State, fr *Frame, instr ssa.Instruction) bool {
 		}
 		lo, hi, mx := C(64, 0), ln, cp
 		if in.Low != nil {
-			lo = SExt(term(e.val(fr, s, in.Low)), 64)
+			lo = e.ext64(fr, s, in.Low)
 		}
 		if in.High != nil {
-			hi = SExt(term(e.val(fr, s, in.High)), 64)
+			hi = e.ext64(fr, s, in.High)
 		}
 		if in.Max != nil {
-			mx = SExt(term(e.val(fr, s, in.Max)), 64)
+			mx = e.ext64(fr, s, in.Max)
 		}
 		var ok *Term
 		if isStr {
